@@ -244,9 +244,11 @@ impl Gen {
                 }
             }
             let delay = if cfg.family == "delay" && self.rng.chance(1, 2) { self.rng.below(5) as usize } else { cfg.delay };
+            // the order of the builder calls (sparse saving before or after the window) must not matter
+            let ord = self.rng.below(2);
             self.emit(format!(
-                "new p2p {} np={} mp={} sparse={} dd={} delay={} fps={} dt={} dn={} pred={} players={}",
-                p, np, cfg.mp, u8::from(cfg.sparse), cfg.dd, delay, cfg.fps, cfg.dt, cfg.dn, cfg.pred, players.join(",")
+                "new p2p {} np={} mp={} sparse={} dd={} delay={} fps={} dt={} dn={} pred={} ord={} players={}",
+                p, np, cfg.mp, u8::from(cfg.sparse), cfg.dd, delay, cfg.fps, cfg.dt, cfg.dn, cfg.pred, ord, players.join(",")
             ));
             let handles: Vec<usize> = owner.iter().enumerate().filter(|(_, o)| **o == p).map(|(h, _)| h).collect();
             let base = 1_000_000 / cfg.fps as u64;
@@ -336,7 +338,17 @@ impl Gen {
         }
         if cfg.family == "death" || cfg.family == "death3" || cfg.family == "zombie" {
             let victim = self.rng.below(cfg.n_peers as u64) as usize;
-            self.peers[victim].die_at = Some(400_000 + self.rng.below(2_500_000));
+            let t1 = 400_000 + self.rng.below(2_500_000);
+            self.peers[victim].die_at = Some(t1);
+            // with four or more peers sometimes a second one drops out later (the survivors have
+            // settled the first drop by then, or are still settling it)
+            if cfg.family == "death3" && cfg.n_peers >= 4 && self.rng.chance(1, 2) {
+                let mut second = self.rng.below(cfg.n_peers as u64) as usize;
+                if second == victim {
+                    second = (second + 1) % cfg.n_peers;
+                }
+                self.peers[second].die_at = Some(t1 + 100_000 + self.rng.below(2_000_000));
+            }
         }
     }
 
@@ -586,6 +598,20 @@ impl Gen {
             let vals: Vec<String> = (0..np).map(|k| match self.rng.below(3) { 0 => (t % 5).to_string(), 1 => (k + 1).to_string(), _ => self.rng.below(256).to_string() }).collect();
             if self.cfg.family == "sync" && self.rng.chance(1, 50) {
                 // a misuse in between: advancing with an input missing
+                self.emit("adv 1".to_owned());
+            }
+            if self.cfg.family == "sync" && np >= 2 && self.rng.chance(1, 40) {
+                // the same with some of the inputs already registered: the refused call must leave
+                // them replaceable (the tick below registers every player's input again)
+                let k = 1 + self.rng.below(np as u64 - 1) as usize;
+                let mut hs: Vec<usize> = (0..np).collect();
+                for i in (1..hs.len()).rev() {
+                    hs.swap(i, self.rng.below(i as u64 + 1) as usize);
+                }
+                for h in hs.into_iter().take(k) {
+                    let v = 200 + self.rng.below(50);
+                    self.emit(format!("addin 1 {h} {v}"));
+                }
                 self.emit("adv 1".to_owned());
             }
             self.emit(format!("tick 1 {}", vals.join(",")));
